@@ -328,3 +328,79 @@ Definition exec_site (e : entry) : site :=
   if e_async e then LoopTask
   else if e_thread e then Pool
   else LoopInline.
+
+(* ------------------------------------------------------------------ the two-phase API *)
+(* `server.feature(name, options)`, `server.command(name)` and `server.thread()` only BUILD a
+   decorator (a closure over their arguments); every check and every write happens when that
+   decorator is APPLIED to a function, possibly much later and interleaved with other creations
+   and applications (table-driven registration).  A world = the registry + the decorators and
+   function objects the caller holds. *)
+Inductive dec :=
+  | DFeature (n : name) (o : optarg)
+  | DCommand (n : name)
+  | DThread.
+
+(* FeatureManager.feature / command / thread up to `return decorator`: no check, no write *)
+Definition make_decorator (r : registry) (d : dec) : registry * result := (r, Ok).
+
+(* decorator(f) *)
+Definition op_of (d : dec) (f : func) : op :=
+  match d with
+  | DFeature n o => OpFeature n o f
+  | DCommand n => OpCommand n f
+  | DThread => OpThread f
+  end.
+
+Record world := mkworld {
+  w_reg : registry;
+  w_decs : list dec;                         (* decorators created so far, by creation order *)
+  w_fns : list func                          (* function objects defined so far *)
+}.
+
+Definition empty_world : world := mkworld empty_registry [] [].
+
+Inductive wop :=
+  | WDef (f : func)                          (* def f(...) *)
+  | WMake (d : dec)                          (* d = server.feature(..) / command(..) / thread() *)
+  | WApply (i j : nat).                      (* decorators[i](functions[j]) *)
+
+Fixpoint set_nth {A} (j : nat) (x : A) (l : list A) : list A :=
+  match l, j with
+  | [], _ => []
+  | _ :: t, O => x :: t
+  | a :: t, S j' => a :: set_nth j' x t
+  end.
+
+Definition wstep (w : world) (x : wop) : world * result :=
+  match x with
+  | WDef f => (mkworld (w_reg w) (w_decs w) (w_fns w ++ [f]), Ok)
+  | WMake d =>
+    let '(r, res) := make_decorator (w_reg w) d in
+    match res with
+    | Ok => (mkworld r (w_decs w ++ [d]) (w_fns w), Ok)
+    | Error _ => (mkworld r (w_decs w) (w_fns w), res)
+    end
+  | WApply i j =>
+    match nth_error (w_decs w) i, nth_error (w_fns w) j with
+    | Some d, Some f =>
+      let '(r, f', res) := step (w_reg w) (op_of d f) in
+      (mkworld r (w_decs w) (set_nth j f' (w_fns w)), res)
+    | _, _ => (w, Error EKey)                (* the caller has no such object: nothing is called *)
+    end
+  end.
+
+Fixpoint wrun (w : world) (xs : list wop) : list (world * result) :=
+  match xs with
+  | [] => []
+  | x :: t => let '(w', res) := wstep w x in (w', res) :: wrun w' t
+  end.
+
+(* several servers in one process share nothing: a call on server k touches world k only.
+   MODELLING ASSUMPTION (checked by the correspondence run, not provable here): the oracle bit
+   carried by an options argument is a function of (method, options object) alone - it does not
+   depend on earlier registrations on this or any other server of the process. *)
+Definition mstep (ws : list world) (k : nat) (x : wop) : list world * result :=
+  match nth_error ws k with
+  | Some w => let '(w', res) := wstep w x in (set_nth k w' ws, res)
+  | None => (ws, Error EKey)
+  end.
